@@ -72,6 +72,65 @@ def run(chk):
                   nontrivial=lambda sc, o: any(len(x.get('bar') or []) >= 2 for x in o.get('ops', [])),
                   dist=lambda sc, o: {'input': sc['ops'][0].get('input'), 'known_length': sc['ops'][0].get('input') != 'gen' or sc['ops'][0].get('iterable_len') is not None,
                                       'lifespan': sc['ops'][0].get('worker_lifespan') is not None, 'ops': len(sc['ops']), 'keep_alive': bool(sc['pool'].get('keep_alive'))})
+    # "showing the bar leaves results and exit results unchanged": the same history of calls on a kept-alive pool, once without any
+    # bar and once with the bar shown in some of the calls (order_tasks and single-task chunks make the distribution of the tasks
+    # over the workers independent of the schedule): same results, same worker restarts, same exit results
+    import copy
+    from harness import par
+    pairs = []
+    for _ in range(40 if chk.tier == 'quick' else 600):
+        nj = rng.choice([1, 2, 3])
+        L = rng.choice([None, 3, 4, 5, 7])
+        ops = []
+        for _k in range(rng.randint(2, 4)):
+            op = {'op': rng.choice(['map', 'imap', 'map_unordered']), 'n': rng.randint(1, 6), 'chunk_size': 1, 'elem': 'scalar', 'init': True, 'exit': True,
+                  'dur': {'kind': 'hash', 'salt': rng.randint(0, 99), 'unit': 0.005}}
+            if L:
+                op['worker_lifespan'] = L
+            ops.append(op)
+        ops.append({'op': 'stop_and_join'})
+        a = {'seed': rng.randint(0, 10 ** 6), 'pool': {'n_jobs': nj, 'start_method': rng.choice(['fork', 'threading']), 'keep_alive': True, 'order_tasks': True},
+             'ops': ops, 'same_func': True, 'relax_shape': True}
+        b = copy.deepcopy(a)
+        for op in b['ops'][:-1]:
+            if rng.random() < .5:
+                op['progress_bar'] = True
+        if not any(op.get('progress_bar') for op in b['ops']):
+            b['ops'][rng.randrange(len(b['ops']) - 1)]['progress_bar'] = True
+        pairs.append((a, b))
+    flat = [x for p_ in pairs for x in p_]
+    fobs = par.run_all(flat)
+
+    def digest(o):
+        calls = o.get('calls', [])
+        per_inst = {}
+        for c in calls:
+            if c[1] == 'task':
+                per_inst.setdefault((c[2], c[3]), 0)
+                per_inst[(c[2], c[3])] += 1
+        by_worker = {}
+        for (role, tok), k in sorted(per_inst.items(), key=lambda kv: kv[0][1]):
+            by_worker.setdefault(role, []).append(k)
+        exits = sorted(sum(1 for c in calls if c[1] == 'exit' and c[2] == role) for role in by_worker)
+        return {'results': [sorted(x['result'], key=str) if isinstance(x.get('result'), list) and x.get('op') in ('map_unordered', 'imap_unordered') else x.get('result')
+                            for x in o.get('ops', [])], 'outcomes': [x.get('outcome') for x in o.get('ops', [])],
+                'tasks_per_instance_by_worker': by_worker, 'exit_calls_per_worker': exits,
+                'exit_results': [sorted(map(str, x.get('exit_results') or [])) if x.get('exit_results') else None for x in o.get('ops', [])]}
+    for (a, b), oa, ob in zip(pairs, fobs[0::2], fobs[1::2]):
+        if oa.get('harness_error') or ob.get('harness_error') or oa.get('stuck'):
+            continue
+        chk.count('the same keep-alive history with and without the bar', key=str(b), nontrivial=True, sample={'scenario': b},
+                  lifespan=a['ops'][0].get('worker_lifespan'), calls=len(a['ops']) - 1)
+        if ob.get('stuck'):
+            chk.violation('bar_leaves_the_call_unchanged', {'scenario': b}, {'with_bar': 'never returns', 'stuck': ob['stuck']}, 'showing the bar changes nothing but the display',
+                          input_class='bar_changes_outcome')
+            continue
+        da, db = digest(oa), digest(ob)
+        da.pop('exit_results'); db.pop('exit_results')      # (exit results carry instance tokens: compared through the counts above)
+        if da != db:
+            diff = {k: {'without_bar': da[k], 'with_bar': db[k]} for k in da if da[k] != db[k]}
+            chk.violation('bar_leaves_the_call_unchanged', {'scenario': b, 'same_without_bar': a}, diff, 'showing the bar leaves results, worker restarts and exit results unchanged',
+                          input_class='bar_changes_outcome')
     chk.assumptions += ['tqdm rendering/refresh policy is not modelled: only the sequence of printed n/total is read',
                         'only the "std" style is exercised (notebook/rich need widgets not available offline)']
 
